@@ -1,6 +1,7 @@
 package rules
 
 import (
+	"go/constant"
 	"fmt"
 	"go/token"
 	"go/types"
@@ -616,6 +617,45 @@ func c10N4(l *core.Ledger, r *rt) {
 				if !raised {
 					missing = append(missing, fnKey(cs.root)+"→"+fnKey(cs.fn))
 				}
+			}
+			// a signal raised by a non-blocking send (select with default) is kept only if the channel
+			// can hold it: an unbuffered channel drops it whenever the waiter is not parked yet
+			for _, sig := range sigs {
+				nonBlockingRaise := false
+				for _, f := range allFuncs(l.Prog, r.pkg) {
+					sx.AllInstrs(f, func(_ sx.Node, in ssa.Instruction) {
+						if x, ok := in.(*ssa.Select); ok && !x.Blocking {
+							for _, st := range x.States {
+								if st.Dir == types.SendOnly && sx.All(sx.Origins(st.Chan), func(o sx.Origin) bool { return o.Kind == sx.KField && o.Field == sig }) {
+									nonBlockingRaise = true
+								}
+							}
+						}
+					})
+				}
+				if !nonBlockingRaise {
+					continue
+				}
+				buffered, made := true, 0
+				for _, a := range collectAccesses(l, r, "channel", sig.Name()) {
+					st, ok := a.at.(*ssa.Store)
+					if !ok || a.kind != "write" {
+						continue
+					}
+					for _, o := range sx.Origins(st.Val) {
+						mc, isMake := o.V.(*ssa.MakeChan)
+						if !isMake {
+							buffered = false
+							continue
+						}
+						made++
+						if k, isC := mc.Size.(*ssa.Const); !isC || k.Value == nil || constant.Sign(k.Value) <= 0 {
+							buffered = false
+						}
+					}
+				}
+				l.Check(buffered && made > 0, "C10-N4", key+"/signal-capacity("+sig.Name()+")", sx.PosOf(op.at), "the wake-up signal is raised without blocking into a channel that can hold it",
+					"the wake-up signal "+sig.Name()+" is raised by a non-blocking send into an unbuffered channel: it is lost whenever the stream is re-established after the reader's failed attempt but before the reader parks in its back-off wait - the reader then sleeps the full delay while replies sit unread")
 			}
 			sort.Strings(missing)
 			l.Check(len(missing) == 0, "C10-N4", key, sx.PosOf(op.at), "back-off wait is woken by whoever re-establishes the stream",
